@@ -59,11 +59,15 @@ pub struct ShimCfg {
     pub clock: Option<String>,
     pub junk: u32,
     pub budget: Option<u64>,
+    /// seconds added to every scripted clock reading (clocks beyond year 2262 / 2554)
+    pub clock_extra_s: Option<i64>,
+    /// address-space rlimit of the child in bytes (default 12 GiB)
+    pub as_limit: Option<u64>,
 }
 
 impl ShimCfg {
     pub fn to_json(&self) -> Value {
-        json!({"seed": self.seed, "plan": self.plan, "clock": self.clock, "junk": self.junk, "budget": self.budget})
+        json!({"seed": self.seed, "plan": self.plan, "clock": self.clock, "junk": self.junk, "budget": self.budget, "clock_extra_s": self.clock_extra_s, "as_limit": self.as_limit})
     }
     pub fn from_json(v: &Value) -> Option<ShimCfg> {
         Some(ShimCfg {
@@ -72,8 +76,32 @@ impl ShimCfg {
             clock: v.get("clock").and_then(|c| c.as_str()).map(|s| s.to_string()),
             junk: v.get("junk").and_then(|c| c.as_u64()).unwrap_or(0) as u32,
             budget: v.get("budget").and_then(|c| c.as_u64()),
+            clock_extra_s: v.get("clock_extra_s").and_then(|c| c.as_i64()),
+            as_limit: v.get("as_limit").and_then(|c| c.as_u64()),
         })
     }
+}
+
+/// Environment blocks a deployment may carry: locale, terminal, time zone, the variables logging and tracing crates and the
+/// Rust runtime look at, temp/home directories that do not exist. No result may depend on any of them.
+pub const ENV_SETS: &[&[(&str, &str)]] = &[
+    &[],
+    &[("LANG", "C")],
+    &[("LANG", "en_US.UTF-8"), ("LC_ALL", "tr_TR.UTF-8")],
+    &[("TZ", "Asia/Tokyo"), ("HOME", "/nonexistent")],
+    &[("TERM", "dumb"), ("COLUMNS", "7"), ("NO_COLOR", "1")],
+    &[("RUST_BACKTRACE", "1")],
+    &[("LC_ALL", "C.UTF-8"), ("LANGUAGE", "pl"), ("TMPDIR", "/nonexistent")],
+    &[("RUST_MIN_STACK", "1048576"), ("MALLOC_PERTURB_", "165")],
+    &[("RUST_LOG", "debug")],
+    &[("RUST_LOG", "trace"), ("RUST_LOG_STYLE", "always"), ("CLICOLOR_FORCE", "1")],
+    &[("DEBUG", "1"), ("VERBOSE", "1"), ("FML_DEBUG", "1"), ("FML_TRACE", "1")],
+    &[("RUST_LIB_BACKTRACE", "1"), ("RUST_BACKTRACE", "full")],
+    &[("CLAP_DEBUG", "1"), ("TERM", "xterm-256color"), ("COLORTERM", "truecolor")],
+];
+
+pub fn env_set(rng: &mut super::util::Rng) -> Vec<(String, String)> {
+    rng.pick(ENV_SETS).iter().map(|(k, v)| (k.to_string(), v.to_string())).collect()
 }
 
 #[derive(Clone, Debug)]
@@ -83,6 +111,8 @@ pub enum In {
     File(String),
     /// a real pipe fed by the harness — uncontrolled chunking, used as a shim-independent witness
     Pipe(Vec<u8>),
+    /// a regular file as stdin, positioned at this byte offset (what `{ a; b; } < file` or an lseek by the parent leaves)
+    FileAt(String, u64),
 }
 
 #[derive(Clone, Debug)]
@@ -129,7 +159,7 @@ impl Child {
         json!({
             "profile": self.profile.name(),
             "args": self.args,
-            "stdin": match &self.stdin { In::Null => json!("null"), In::File(f) => json!({"file": f}), In::Pipe(b) => json!({"pipe_bytes": b.len()}) },
+            "stdin": match &self.stdin { In::Null => json!("null"), In::File(f) => json!({"file": f}), In::Pipe(b) => json!({"pipe_bytes": b.len()}), In::FileAt(f, o) => json!({"file": f, "offset": o}) },
             "stdout": match &self.stdout { Out::Pipe => json!("pipe"), Out::File(f) => json!({"file": f}), Out::DevFull => json!("/dev/full"), Out::Null => json!("null") },
             "env": self.env,
             "shim": self.shim.as_ref().map(|s| s.to_json()),
@@ -245,7 +275,7 @@ pub fn cleanup_scratch_root() {
     let _ = std::fs::remove_dir_all(scratch_root());
 }
 
-pub fn run_child(cwd: &Path, c: &Child) -> ChildResult {
+fn prepare(cwd: &Path, c: &Child) -> (Command, Option<PathBuf>, PathBuf, PathBuf) {
     let bin = match &c.program { Some(p) => PathBuf::from(p), None => binary(c.profile) };
     let mut cmd = Command::new(&bin);
     if let Some(a0) = &c.argv0 {
@@ -281,6 +311,12 @@ pub fn run_child(cwd: &Path, c: &Child) -> ChildResult {
         if let Some(b) = s.budget {
             cmd.env("FMLSIM_BUDGET", b.to_string());
         }
+        if let Some(x) = s.clock_extra_s {
+            cmd.env("FMLSIM_CLOCK_S", x.to_string());
+        }
+        if let Some(x) = s.as_limit {
+            cmd.env("FMLSIM_AS", x.to_string());
+        }
     }
     match &c.stdin {
         In::Null => {
@@ -298,6 +334,17 @@ pub fn run_child(cwd: &Path, c: &Child) -> ChildResult {
         In::Pipe(_) => {
             cmd.stdin(Stdio::piped());
         }
+        In::FileAt(f, off) => match std::fs::File::open(cwd.join(f)) {
+            Ok(mut file) => {
+                use std::io::{Seek, SeekFrom};
+                let _ = file.seek(SeekFrom::Start(*off));
+                cmd.stdin(Stdio::from(file));
+            }
+            Err(e) => {
+                eprintln!("HARNESS-ERROR cannot open stdin file {}: {}", f, e);
+                std::process::exit(2);
+            }
+        },
     }
     let mut out_file: Option<PathBuf> = None;
     match &c.stdout {
@@ -325,6 +372,11 @@ pub fn run_child(cwd: &Path, c: &Child) -> ChildResult {
     unsafe {
         personality(if c.aslr { 0 } else { ADDR_NO_RANDOMIZE });
     }
+    (cmd, out_file, trace_path, bin)
+}
+
+pub fn run_child(cwd: &Path, c: &Child) -> ChildResult {
+    let (mut cmd, out_file, trace_path, bin) = prepare(cwd, c);
     let mut child = match cmd.spawn() {
         Ok(c) => c,
         Err(e) => {
@@ -366,12 +418,56 @@ pub fn run_child(cwd: &Path, c: &Child) -> ChildResult {
     ChildResult { exit, stdout, stderr: output.stderr, trace }
 }
 
+/// Two invocations sharing a directory, interleaved at a point the simulator decides: `first` is started with its stdin on a
+/// pipe the harness holds and left until it *blocks reading that pipe* (observed in /proc/<pid>/syscall: no sleep decides
+/// anything); then `second` runs to completion; then `first` is fed its input and runs to its end.
+pub fn run_second_while_first_waits_for_input(cwd: &Path, first: &Child, first_input: &[u8], second: &Child) -> (ChildResult, ChildResult) {
+    let mut f = first.clone();
+    f.stdin = In::Pipe(Vec::new());
+    let (mut cmd, out_file, trace_path, bin) = prepare(cwd, &f);
+    unsafe { personality(if f.aslr { 0 } else { ADDR_NO_RANDOMIZE }); }
+    let mut child = match cmd.spawn() {
+        Ok(c) => c,
+        Err(e) => { eprintln!("HARNESS-ERROR cannot spawn {}: {}", bin.display(), e); std::process::exit(2); }
+    };
+    // park: wait until the first process sits in read(2) on fd 0 (x86_64: syscall 0, first argument 0x0), or has ended
+    let pid = child.id();
+    let mut spins = 0u64;
+    loop {
+        if let Ok(Some(_)) = child.try_wait() { break; }
+        let st = std::fs::read_to_string(format!("/proc/{}/syscall", pid)).unwrap_or_default();
+        let mut it = st.split_whitespace();
+        if it.next() == Some("0") && it.next() == Some("0x0") { break; }
+        spins += 1;
+        if spins > 20_000_000 { break; } // a process that neither reads its input nor ends: the second one runs anyway
+        std::thread::yield_now();
+    }
+    let second_result = run_child(cwd, second);
+    {
+        use std::io::Write;
+        if let Some(mut stdin) = child.stdin.take() { let _ = stdin.write_all(first_input); }
+    }
+    let output = match child.wait_with_output() {
+        Ok(o) => o,
+        Err(e) => { eprintln!("HARNESS-ERROR wait failed: {}", e); std::process::exit(2); }
+    };
+    let exit = match (output.status.code(), output.status.signal()) {
+        (Some(c), _) => Exit::Code(c),
+        (None, Some(24)) | (None, Some(9)) => Exit::Timeout,
+        (None, Some(s)) => Exit::Signal(s),
+        _ => Exit::Signal(-1),
+    };
+    let stdout = match out_file { Some(p) => std::fs::read(&p).unwrap_or_default(), None => output.stdout };
+    let trace = std::fs::read_to_string(&trace_path).unwrap_or_default();
+    (ChildResult { exit, stdout, stderr: output.stderr, trace }, second_result)
+}
+
 /// setup-time probe: the shim must be effective for this binary (dynamic linking, symbol interposition)
 pub fn shim_effective() -> Result<(), String> {
     let dir = scratch_dir();
     std::fs::write(dir.join("p.fml"), "print(\"probe\\n\")\n").map_err(|e| e.to_string())?;
     let mut c = Child::new(Profile::Release, &["run", "p.fml"]);
-    c.shim = Some(ShimCfg { seed: 1, plan: "o:*:l:2".into(), clock: None, junk: 0, budget: None });
+    c.shim = Some(ShimCfg { seed: 1, plan: "o:*:l:2".into(), clock: None, junk: 0, budget: None, ..Default::default() });
     let r = run_child(&dir, &c);
     let _ = std::fs::remove_dir_all(&dir);
     if r.exit != Exit::Code(0) || r.stdout != b"probe\n" {
